@@ -48,7 +48,9 @@ def takeToEnd : List String → List String
 
 /-- `use G3` / `use F1` inside a function body: the symbol enters the usage analysis -/
 def useSym (r : String) : Option Sym :=
-  match r.toList with
+  -- `G3@i`: the suffix names the expression position the use is printed at (subscript index, argument, ternary arm …);
+  -- the usage analysis records the symbol wherever the use sits (Thm.C15.used_symbols_include_index_positions)
+  match r.toList.takeWhile (· ≠ '@') with
   | 'G' :: ds => (String.ofList ds).toNat?.map (⟨.global, ·⟩)
   | 'F' :: ds => (String.ofList ds).toNat?.map (⟨.func, ·⟩)
   | _ => none
@@ -57,6 +59,10 @@ partial def parseStmts (st : PState) : List String → Option (PState × List St
   | "}" :: r => some (st, r)
   | "lv" :: n :: r => parseStmts { st with locals := st.locals.push n } r
   | "use" :: u :: r =>
+    parseStmts (match useSym u with | some y => { st with used := st.used.push y } | none => st) r
+  | "lvi" :: n :: u :: r =>
+    -- `int n = <use u>;`: a local and a use
+    let st := { st with locals := st.locals.push n }
     parseStmts (match useSym u with | some y => { st with used := st.used.push y } | none => st) r
   | "{" :: r =>
     match parseStmts st r with
